@@ -290,7 +290,7 @@ def run_c27(ctx, pid):
 # ------------------------------------------------------------------------------------------------ C28
 class PoolJudged:
     def __init__(self):
-        self.histories = self.results = self.ok = self.stuck = self.lines = 0
+        self.histories = self.results = self.ok = self.stuck = self.lines = self.distinct = 0
         self.mism, self.mdmism, self.rows = [], [], None
 
 
@@ -307,6 +307,15 @@ def judge_pool(ctx, label, trace, timeout=1500):
     j.histories = len(hs)
     j.results = sum(int(h[1]) for h in hs)
     j.ok = sum(int(h[2]) for h in hs)
+    sigs, cur = set(), []
+    for e in rows + [{"op": "New"}]:
+        if e["op"] == "New":
+            if sum(1 for x in cur if x[3] == "" and x[2]) >= 2:
+                sigs.add(json.dumps(cur))
+            cur = []
+        elif (e["op"] == "Reply" and e["fin"] == 1) or e["op"] in ("Timeout", "Result"):
+            cur.append([e["c"], e["want"], e["got"], e["err"]])
+    j.distinct = len(sigs)
     j.stuck = len(_tuples(r.out, "STUCK"))
     return j
 
@@ -330,7 +339,7 @@ def run_c28(ctx, pid):
     pool = concurrent.futures.ThreadPoolExecutor(max_workers=3 if quick else 4)
     tmo = 900 if quick else 3000
     f_design = [pool.submit(ctx.tlc_must_hold, SPEC, c, module="MC_ConnPool", timeout=tmo, workers=2 if quick else 6)
-                for c in (["MC_ConnPool_q.cfg", "MC_ConnPool_q2.cfg"] if quick else ["MC_ConnPool_t.cfg", "MC_ConnPool_q.cfg"])]
+                for c in (["MC_ConnPool_q.cfg", "MC_ConnPool_q2.cfg"] if quick else ["MC_ConnPool_t2.cfg", "MC_ConnPool_t.cfg", "MC_ConnPool_q.cfg"])]
     f_put = pool.submit(ctx.tlc, SPEC, "MC_ConnPool_put.cfg", module="MC_ConnPool", timeout=900, expect_fail=True, workers=2)
     dumps = [("q", 1, 600), ("q2", 1, 600)] if quick else [("q", 1, 10 ** 9), ("q2", 1, 10 ** 9), ("t", 2, 12000)]
     f_dumps = [(tag, mi, nsel, pool.submit(ctx.tlc, SPEC, "Dump_ConnPool_%s.cfg" % tag, module="MC_ConnPool", timeout=tmo,
@@ -389,6 +398,7 @@ def run_c28(ctx, pid):
         total["histories"] += j.histories
         total["results"] += j.results
         total["ok"] += j.ok
+        total["distinct"] += j.distinct
         total["events"] += j.lines
         total["stuck"] += j.stuck
         for k in ("behaviours", "completed", "drift", "steps"):
@@ -406,9 +416,10 @@ def run_c28(ctx, pid):
     pool.shutdown()
     st, tr = ctx.states()
     cov = {"states": st, "transitions": tr, "traces_validated_against_impl": total["histories"], "samples": samples,
-           "evaluations": total["results"], "distinct_nontrivial": total["ok"],
+           "evaluations": total["results"], "distinct_nontrivial": total["distinct"], "exchanges_with_replies": total["ok"],
            "rule": "evaluations = exchanges (SendProto / SendBatchProto / Ask / BatchAsk calls) whose outcome was judged; "
-                   "distinct_nontrivial = exchanges that returned replies (each carries its own request ids); histories = puppet "
+                   "distinct_nontrivial = distinct recorded histories (sequence of caller, requests, replies, error) with >= 2 "
+                   "exchanges that returned replies; histories = puppet "
                    "replays of edge-cover walks of ConnPool.tla on the real inet.Client against a ProtoServer whose replies the walk "
                    "releases + free-running concurrent exchanges with deadlines + Ask/BatchAsk between two real actor systems",
            "graph_edges": total["graph_edges"], "edge_cover_walks": total["cover_walks"], "walks_replayed": total["behaviours"],
@@ -498,6 +509,7 @@ def run_c29(ctx, pid):
         raise vlib.Infra("MetaCoalescer.tla: no batch mixes callers within the bounds (vacuous)")
     violations = []
     infra = []
+    distinct = set()
     for fut in futs:
         try:
             label, rs, j, kind = fut.result()
@@ -510,10 +522,12 @@ def run_c29(ctx, pid):
         if kind == "ask":
             mdm = [(int(m[0]), m[1], m[2]) for m in j.mdmism]
             n = sum(1 for e in j.rows if e["op"] == "recv")
+            distinct.update((label, e["req"]) for e in j.rows if e["op"] == "recv")
         else:
             mdm = [(int(m[0]), m[2], m[3]) for m in j.mism if m[1] == "md"]
             n = sum(len(e["ids"]) for e in j.rows if e["op"] == "dlv")
             total["mixed_batches"] += sum(1 for e in j.rows if e["op"] == "dlv" and len({i // 1000 for i in e["ids"]}) > 1)
+            distinct.update((label,) + tuple(e["ids"]) for e in j.rows if e["op"] == "dlv")
         total["messages"] += n
         total["batches_gt1"] += rs.get("batches_gt1", 0)
         ctx.log("%-10s %s | histories %d messages with restored metadata %d, mismatches %d, stuck %d"
@@ -523,11 +537,12 @@ def run_c29(ctx, pid):
     pool.shutdown()
     st, tr = ctx.states()
     cov = {"states": st, "transitions": tr, "traces_validated_against_impl": total["histories"], "samples": samples,
-           "evaluations": total["messages"], "distinct_nontrivial": total["messages"],
+           "evaluations": total["messages"], "distinct_nontrivial": len(distinct),
            "rule": "evaluations = messages whose restored header was compared with the injected one: per RemoteMessage on the wire "
                    "in puppet replays of Coalescer.tla walks with maxBatch 2 (batches that mix callers), per message in "
                    "ReceiveContext.Context() of real receiving actors for concurrent Tell (coalesced batches) and Ask / BatchAsk "
-                   "between two real actor systems; every message has its own header value",
+                   "between two real actor systems; every message has its own header value; distinct_nontrivial = distinct "
+                   "delivered batches (by content) / distinct asked messages among them",
            "wire_batches_mixing_callers": total["mixed_batches"], "system_batches_with_more_than_one_message": total["batches_gt1"],
            "stuck_histories": total["stuck"], "events_validated": total["events"], "exhaustive": False}
     assumptions = ["the propagator is the harness's (one header carrying the message id); header maps with several keys, "
